@@ -6,7 +6,8 @@
      c04 notes ( ( match x<extcode> hasnote x<key> x<code> x<src> x<text> x<ext> ) ... )
                ( ( 1 x<key> x<code> x<src> x<text> x<meta> x<ext> ) | ( 0 ) ... )
                                                             -> ( ok <notes after one pass> <after two> )
-     c04 notes_fixed ...                                    -> the same with the repaired ScenarioSet.Notes()
+                                                               (ScenarioSet.Notes() as repaired in /repo: codes = ExtCode)
+     c04 notes_shipped ...                                  -> the same with ScenarioSet.Notes() as first shipped (refuted model)
      c04 marshal_map ( ( x<k> x<v> ) ... )                  -> x<json>
      c04 parse_map x<json>                                  -> ( ok ( x<k> x<v> ) ... ) | ( err parse )
      c04 date_parse x<text>                                 -> ( ok y m d ) | ( err parse )
@@ -56,8 +57,8 @@ Definition run_c04 (args : list V) : list V :=
     else if String.eqb op "key_valid" then [VB (key_valid (vs_ a1))]
     else if String.eqb op "addr_trim" then
       [VL [VS (trim_space (vs_ a1)); VS (normalize_alnum_code (vs_ a1)); VS (normalize_code (vs_ a1))]]
-    else if String.eqb op "notes" then run_notes prepare_notes a1 (hd (VL []) (tl rest))
-    else if String.eqb op "notes_fixed" then run_notes prepare_notes_fixed a1 (hd (VL []) (tl rest))
+    else if String.eqb op "notes" then run_notes prepare_notes_fixed a1 (hd (VL []) (tl rest))
+    else if String.eqb op "notes_shipped" then run_notes prepare_notes a1 (hd (VL []) (tl rest))
     else if String.eqb op "marshal_map" then [VS (marshal_map (map dec_pair (vl a1)))]
     else if String.eqb op "parse_map" then
       match unmarshal_map (vs_ a1) with
